@@ -1,5 +1,7 @@
 SPECIFICATION Spec
 CONSTANTS
+  GitColoured = FALSE
+  BlameFixed = TRUE
   NK = 4
   MaxLen = 9
   Palettes = {2, 3, 4}
